@@ -189,6 +189,14 @@ func (fr *Frame) step(st *State, ins ssa.Instruction) {
 		d := len(st.envs)
 		st.defers[d] = append(st.defers[d], dc)
 	case *ssa.Go:
+		if tc := fr.topContract(); tc != nil && tc.Options["go-as-call"] != "" {
+			// "option go-as-call": the goroutine's body is executed at the go statement (one of the interleavings). Only
+			// for contracts about what each goroutine is started with (the arguments of the calls it makes), never
+			// about shared state: concurrency itself stays outside the subset.
+			fr.v.assume("go statements are executed as calls at the point where the goroutine is started (option go-as-call): the contract speaks about the arguments each goroutine is started with, not about interleavings")
+			fr.call(st, i, &i.Call)
+			return
+		}
 		unsup("go statement in %s", fr.fn.Name())
 	case *ssa.Send, *ssa.Select, *ssa.MakeChan:
 		unsup("channel operation in %s", fr.fn.Name())
